@@ -6,7 +6,7 @@ F = ["zz_verif_tape.go", "zz_verif_wf.go", "zz_verif_t1.go", "zz_verif_edit.go"]
 
 def lemmas(tier):
     plan = [(4, 1, 0), (5, 1, 0), (6, 1, 2), (7, 1, 3), (4, 2, 0), (5, 2, 2)] if tier == "quick" else \
-           [(4, 1, 0), (5, 1, 0), (6, 1, 2), (7, 1, 3), (8, 1, 4), (9, 1, 5), (4, 2, 0), (5, 2, 2), (6, 2, 4), (7, 2, 5), (5, 3, 4)]
+           [(4, 1, 0), (5, 1, 0), (6, 1, 2), (7, 1, 3), (8, 1, 4), (4, 2, 0), (5, 2, 2), (6, 2, 4), (4, 3, 2), (5, 3, 4)]
     ls = []
     for T, steps, sd in plan:
         ls.append(Lemma("T5.Delete.T%d.x%d" % (T, steps), "verifHarness_T5_Delete", F,
